@@ -245,7 +245,8 @@ def encodeImmOperation (s : Instr) : Instr :=
   if (r == c_al && s.cons != c_NEG64BIT && s.cons != c_MAX_UNSIGNED_32BIT) ||
      ((r &&& c_REG_MASK) == c_al && s.cons != c_MAX_UNSIGNED_32BIT &&
       inR s.cons (c_MAX_SIGNED_8BIT + 1) (c_NEG64BIT - 1) &&
-      !inR s.cons c_NEG80BIT (c_NEG64BIT - 1))
+      !inR s.cons c_NEG80BIT (c_NEG64BIT - 1) &&
+      !inR s.cons c_NEG80_32BIT c_MAX_UNSIGNED_32BIT)
   then { s with key := s.key + 1 } else s
 
 /-- `opd0_width_mode`: mode bits for the width of the first operand; a memory operand is as wide
